@@ -32,6 +32,8 @@ struct Flight {
     tainted: bool,
     /// receiver must reject and never deliver (unknown mandatory extension, unresolvable re-use)
     must_reject: bool,
+    /// explicit re-use label right after a broadcast packet: delivered under the broadcast label or refused, both right
+    optional: bool,
     total_len: u16,
     written_label: Vec<u8>,
     first_payload: usize,
@@ -545,6 +547,10 @@ impl Scenario for Flow {
                                     stop!();
                                 }
                             }
+                        } else if f.optional && obs.class == "err" {
+                            // refused: as right as a delivery under the broadcast label; nothing more is expected of it
+                            ex.st.inc("reuse_after_broadcast_refused");
+                            flights[fi].tainted = true;
                         } else {
                             let want_class = if is_last { "completed" } else { "fragmented" };
                             let prop_rt: &'static str = if f.has_ext { "C13" } else if kind == Kind::Complete { "C01" } else { "C02" };
@@ -736,7 +742,8 @@ impl Scenario for Flow {
                     let before = canary(buf_len, opi as u8);
                     let mut buf = before.clone();
                     let sub_possible = led.substitution_possible(&lab);
-                    let intended = led.intended(&lab);
+                    let optional = led.reuse_after_broadcast(&lab);
+                    let intended = if optional { Some(Lab::Bcast) } else { led.intended(&lab) };
                     let (call, res, prev) = if exts.is_empty() {
                         let prev = tx_preview(&pdu, ptype, &lab, &before);
                         (Call::Encap, tx_encap(&mut enc, &pdu, fid, ptype, &lab, &mut buf), Some(prev))
@@ -1019,6 +1026,7 @@ impl Scenario for Flow {
                         ctx: ctx.unwrap_or(ContextFrag::new(fid, 0, 0)),
                         tainted,
                         must_reject,
+                        optional,
                         total_len: parsed.total_len.unwrap_or(0),
                         written_label: parsed.label.clone(),
                         first_payload: parsed.payload.len(),
